@@ -311,7 +311,7 @@ def run_harnesses(chk, crate, specs, logdir=None):
         ob.failed = failed
         if vt is not None:
             ob.seconds = vt
-        oom = "Out of memory" in out or "std::bad_alloc" in out or "memory exhausted" in out.lower()
+        oom = "Out of memory" in out or "std::bad_alloc" in out or "memory exhausted" in out.lower() or "ran out of memory" in out
         if to:
             ob.verdict, ob.detail = "inconclusive", "timeout after %ds" % spec.get("timeout", 120)
         elif oom:
